@@ -189,12 +189,13 @@ CHECKS["C04"] = {
              "{none, amount -> other denomination / 0 / 3 / 2^60 / 2^64-1, id -> other known / unknown / non-hex / empty, C -> nibble flip / other proof's C / x not on curve / wrong length / non-hex / empty / zero bytes / upper-case, "
              "secret -> edit / other proof's secret / append, genuinely blind-signed secret of 513..2000 bytes, genuinely signed 512-byte secret, forged (random point, H(secret), published key as C)} presented to Swap or MeltTokens with outputs / quote sized to the claimed amount; "
              "oracle (two-sided): accepted iff len(secret) <= 512 and C == k*hash_to_curve(secret) for the key k of (claimed id, claimed amount) from the independent derivation of the mint's keys from its stored seed. "
-             "non-trivial: a mutated or forged proof that passed the balance pre-check and reached proof verification; distinct = (mutation, target, keysets, amount, prefix of secret and C)."),
+             "non-trivial: a mutated or forged proof that passed the balance pre-check and reached proof verification; distinct = (mutation, target, keysets, amount, prefix of secret and C). HTTP unit: an honest swap is accepted through POST /v1/swap (in front of which a response cache sits), then 2..5 requests re-use its outputs with an input whose amount / secret / C / keyset is changed, a forged input, another genuine proof, or re-use its input with new outputs: each must be refused (and a genuine proof refused this way stays UNSPENT); non-trivial = every follow-up."),
     "level_text": "Generated single-field mutations and forgeries against the real Swap/MeltTokens, judged by an independent implementation of the acceptance condition; honest and harmlessly re-encoded proofs must be accepted, everything else refused.",
     "level_note": _WORLD_NOTE + "Verdict computed with harness/ref only (BIP-32 re-derivation of m/0'/0'/idx'/i', math/big secp256k1, own hash_to_curve).",
     "assumptions": ["reference derivation harness/ref correct", "NUT-10 locked secrets are C12/C13's subject and are not generated here"],
     "units": [
         rapid("genuine", "^TestGenuine$", 320, 64000, qs=8, ts=16),
+        rapid("http", "^TestGenuineHTTP$", 240, 32000, qs=4, ts=16),
     ],
 }
 
@@ -230,7 +231,7 @@ CHECKS["C05"] = {
              "every script is executed on the real mint (fresh inputs and quote per script) with the answers scripted in the Lightning model. "
              "oracle: reference automaton over (quote in UNPAID/PENDING/PAID, inputs in free/locked/spent) written from the statement as a set of allowed states after each step (both outcomes allowed where the statement only permits a release), "
              "checked after every step against the quote row, the proof rows, the responses, the number of lookups actually consumed and the preimage; a follow-up swap must succeed iff the inputs are free. "
-             "non-trivial: script with >=1 status lookup consumed; distinct = the script."),
+             "non-trivial: script with >=1 status lookup consumed; distinct = the script. Poll-during-pay unit (the harness owns this one schedule): the melt's pay call is held at the Lightning model (no payment recorded yet), 1..3 polls (quote state / proof states) run to completion and a swap of the inputs is attempted, then the call is released with outcome success / failed / in flight; against the model directly and through the CLN and LND adapters; oracle: PENDING and swap refused during the hold, states following the outcome afterwards; non-trivial = every case."),
     "level_text": ("The finite space of Lightning answer scripts named by the property is enumerated completely (exhaustive: true) and each member is run against the real MeltTokens / GetMeltQuoteState / ProofsStateCheck code; "
                    "fault enumeration is the right level because the quantifier is a finite set of fault sequences."),
     "level_note": _WORLD_NOTE + "Answers are free scripts (not required to be consistent with each other), as the property's quantifier states. Fee ppk 100 and a 1% fee reserve are fixed.",
@@ -239,6 +240,7 @@ CHECKS["C05"] = {
         plain("scripts", "^TestScripts$", qs=16, ts=16),
         plain("via_cln", "^TestScriptsViaCLN$", qs=16, ts=16),
         plain("via_lnd", "^TestScriptsViaLND$", qs=16, ts=16),
+        rapid("poll_during_pay", "^TestPollDuringPay$", 240, 24000, qs=4, ts=16),
     ],
 }
 
@@ -290,17 +292,19 @@ CHECKS["C10"] = {
     "rule": ("(a) pure BDHKE: secrets = arbitrary bytes 0..512 (incl. empty, 512, non-UTF-8), blinding scalars uniform plus edges {1,2,n-1,n-2}, keys = the 60 keys of reference-derived keysets and random scalars; oracle: B_ = H(s)+rG, C_ = k*B_, Unblind(...) = k*H(s) computed by the reference only, same C for a second r, Verify true for (s,k) and false for another key of the keyset, a changed secret, C+G, -C, 2C, C_, Y. "
              "(b) DLEQ: GenerateDLEQ's proof accepted by crypto.VerifyDLEQ, nut12.VerifyBlindSignatureDLEQ and the reference verifier; reference prover with chosen nonces (uniform and edges) accepted by the implementation; wallet proof {e,s,r} accepted by VerifyProofDLEQ / VerifyProofsDLEQ; 16 blind-tuple and 15 proof single-field tampers (e, s, r, A -> other amount's key / other keyset / -A, B_, C_/C, secret, amount, swaps) each rejected by both entry points; wrong-key signature with a well-formed proof for the wrong key rejected; malformed hex / non-canonical encodings never panic and are rejected unless the verified value is unchanged. "
              "(c) histories on a real mint (fund, swap, rotation, restart, restore): every returned signature carries (e,s) accepted under the published key and under the reference-derived key, C_ = k*B_ by the reference, and RestoreSignatures before and after restart returns identical values that still verify. "
-             "every case is a full pipeline (non-trivial); classes record edge scalars, secret class, tamper kind, persisted signatures; distinct = hash of the inputs. Native fuzz units (thorough, coverage-instrumented build): the same generators and oracles with Go's native fuzzer mutating the byte stream rapid draws from (rapid.MakeFuzz), i.e. steered by coverage of the code under test."),
+             "every case is a full pipeline (non-trivial); classes record edge scalars, secret class, tamper kind, persisted signatures; distinct = hash of the inputs. Native fuzz units (thorough, coverage-instrumented build): the same generators and oracles with Go's native fuzzer mutating the byte stream rapid draws from (rapid.MakeFuzz), i.e. steered by coverage of the code under test. Wallet unit: wallet histories (mint, send, locked sends, receive, melt, swap to another mint) against honest mints that rotate keysets, change fees and restart: no wallet operation may fail because the wallet calls a DLEQ proof invalid (every proof it meets is genuine); non-trivial = history in which signatures were received and verified."),
     "level_text": "Generated inputs through the real crypto / nut12 functions and the real mint, judged by identities recomputed with an independent reference; exploration over 10^3-10^5 cases aimed at edge scalars and every tamper kind.",
     "level_note": "Trusted: harness/ref (math/big secp256k1, NUT-12 prover/verifier pinned to the NUT-12 vectors). Value-preserving re-encodings (upper-case hex, r+n, uncompressed points, bytes appended to a 32-byte scalar which ParseDLEQ truncates) are recorded as observations, not as violations: the statement is about changed values.",
     "assumptions": ["reference implementation harness/ref correct", "hash values >= n and degenerate points are unreachable and skipped"],
     "units": [
         plain("vectors", "^TestSpecVectors$"),
+        plain("regress", "^TestRegress"),
         rapid("bdhke", "^TestBDHKE$", 600, 120000, qs=4, ts=16),
         rapid("dleq", "^TestDLEQ$", 320, 40000, qs=8, ts=16),
         rapid("encoding", "^TestDLEQEncoding$", 1000, 200000, qs=2, ts=16),
         rapid("mintsigs", "^TestMintSignatures$", 48, 6000, qs=8, ts=16),
         rapid("http", "^TestMintSignaturesHTTP$", 64, 6000, qs=8, ts=16),
+        rapid("wallet", "^TestWalletDLEQ$", 64, 6000, qs=8, ts=16),
         fuzz("fuzz_encoding", "FuzzDLEQEncoding", "150s"),
         fuzz("fuzz_bdhke", "FuzzBDHKE", "150s"),
     ],
